@@ -231,6 +231,8 @@ pub struct Opts {
     pub loop_controls: bool,
 }
 
+const BLOCK_NAMES: &[&str] = &["ba", "bb", "bc", "bd", "be", "bf", "bg", "bh", "bi", "bj", "bk", "bl", "bm", "bn", "bo", "bp"];
+
 #[derive(Clone, Copy, PartialEq, Eq, Hash, PartialOrd, Ord, Debug)]
 struct Ctx {
     in_loop: bool,
@@ -241,11 +243,19 @@ pub struct Gen {
     memo_body: std::cell::RefCell<BTreeMap<(usize, Ctx), u64>>,
 }
 
-const N_VARIANTS: usize = 14;
+const N_VARIANTS_CORE: usize = 14;
 
 impl Gen {
     pub fn new(opts: Opts) -> Gen {
         Gen { opts, memo_body: Default::default() }
+    }
+
+    fn n_variants(&self) -> usize {
+        if self.opts.multi_template {
+            N_VARIANTS_CORE + 2
+        } else {
+            N_VARIANTS_CORE
+        }
     }
 
     fn inner_leaves(&self, c: Ctx) -> Vec<Node> {
@@ -332,13 +342,17 @@ impl Gen {
             11 => (1, lp),   // recursive for
             12 => (1, c),    // autoescape
             13 => (1, fresh), // macro with default + kwargs call
+            14 => (1, fresh), // block (multi_template)
+            15 => (1, c),     // include followed by the body (multi_template)
             _ => unreachable!(),
         }
     }
 
     fn construct_count(&self, k: usize, c: Ctx) -> u64 {
         let mut n = 0;
-        for v in 0..N_VARIANTS {
+        for v in 0..self.n_variants() {
+            // blocks cannot be defined inside loops or macros in a meaningful way for this
+            // family; they are still generated (the engine accepts them)
             let (m, bc) = self.variant_shape(v, c);
             n += m * self.body_count(k - 1, bc);
         }
@@ -346,7 +360,7 @@ impl Gen {
     }
 
     fn construct_nth(&self, k: usize, c: Ctx, mut n: u64) -> Vec<Node> {
-        for v in 0..N_VARIANTS {
+        for v in 0..self.n_variants() {
             let (m, bc) = self.variant_shape(v, c);
             let bcount = self.body_count(k - 1, bc);
             let size = m * bcount;
@@ -407,6 +421,16 @@ impl Gen {
                 Node::Out(Expr::Call("md", vec![Expr::Int(1)], vec![("j", Expr::Int(9))])),
                 Node::Out(Expr::Call("md", vec![Expr::Int(3)], vec![])),
             ],
+            14 => {
+                // block names must be unique per template: derive one from the body
+                let name: &'static str = BLOCK_NAMES[(crate::core::fnv(format!("{:?}", body).as_bytes()) % BLOCK_NAMES.len() as u64) as usize];
+                vec![Node::Block(name, body)]
+            }
+            15 => {
+                let mut v = vec![Node::Include(Expr::Str("inc"))];
+                v.extend(body);
+                v
+            }
             _ => unreachable!(),
         }
     }
